@@ -1,8 +1,10 @@
 (* C19 — A request with a timeout resolves by its deadline and cleans up.
-   Statements only; proofs in timeout/Proofs.v (first half) and pool/ (cleanup half, see below).
+   Statements only; proofs in timeout/Proofs.v (first half) and pool/ProofsC03.v, pool/LiveC03c.v
+   (cleanup half: c19_cleanup below).
    Quantification: every duration d (incl. 0), every first-poll delay p0, every inner completion
    time (before / at / after the deadline, never), every inner result. *)
 From HD Require Import common.Base timeout.Model timeout.Spec timeout.Proofs.
+From HD Require http.Model pool.Model pool.Spec pool.ProofsC03 pool.LiveC03c.
 Local Open Scope N_scope.
 
 Theorem c19_monitor : forall c,
@@ -25,6 +27,22 @@ Theorem c19_result : forall c,
   end.
 Proof. exact run_timeout_result. Qed.
 Print Assumptions c19_result.
+
+(* CLEANUP HALF.  When the deadline fires the TimeoutFuture drops its inner future (c19_monitor: the
+   inner work is dropped at the instant of resolution); for a pooled request that is the [Cancel]
+   operation of the pool model, at whatever stage the request is (waiting for its own dial, waiting on
+   another request's dial, holding a popped connection, holding a connection while the exchange runs).
+   For EVERY pool configuration, every history before the timeout, every request r that times out,
+   and every history after it: (1) the timed-out request never completes later and produces nothing
+   more, and every state change still wakes who it must (the step monitor accepts the whole trace);
+   (2) after the closing procedure every other request, and a fresh probe request to the same origin,
+   has obtained a connection or an error - the pool is not left unable to serve. *)
+Theorem c19_cleanup : forall cfg before r after u p,
+  let body := (before ++ pool.Model.Cancel r :: after)%list in
+  let ops := (body ++ pool.Spec.drain_ops (pool.Spec.count_issues body) u p)%list in
+  pool.Spec.mon_C03 cfg ops true (pool.Model.trace cfg ops) = true.
+Proof. intros cfg before r after u p. exact (pool.LiveC03c.mon_C03_holds cfg _ u p). Qed.
+Print Assumptions c19_cleanup.
 
 Example c19_example :
   run_timeout (mkT 10 0 (Some 10) (IErr 3)) = (TInner (IErr 3), 10)
